@@ -214,6 +214,28 @@ func c02KillRace(r *R) {
 	}
 	vsimrt.Settle()
 	r.Sample(map[string]any{"targets": nt})
+	// system-message noise from a third party: a helper actor watches and un-watches the targets while they are told and
+	// killed (Watch/Unwatch travel as system messages), so that other system envelopes are in the middle of being enqueued
+	// when the kill and the message after it arrive
+	noise := r.Chance(70)
+	if noise {
+		helper, err := w.Spawn(&Spec{Name: "noise", Plain: true})
+		if err != nil {
+			r.Fail("C02/harness", "spawn: %v", err)
+			return
+		}
+		vsimrt.Settle()
+		for _, t := range ts {
+			tref := w.RefBy("create", nil, t.path)
+			for k := 0; k < 3; k++ {
+				w.Tell(helper, w.NewCmd("noise", k, func(ctx vivid.ActorContext, p *Probe) {
+					ctx.Watch(tref)
+					ctx.Unwatch(tref)
+				}))
+			}
+		}
+		r.Count("system-message-noise")
+	}
 	for _, t := range ts {
 		for k := 0; k < t.n; k++ {
 			w.Tell(t.ref, w.NewCmd("s", k, nil))
